@@ -37,3 +37,6 @@ Definition dqueue_instances : list (string * instance) :=
     ("Producer", mkInst "AProducer"
         [("AProducer.net", mkBind (TgtGlobal "network") (Some TCPChannel));
          ("AProducer.s", mkBind (TgtGlobal "stream") (Some CyclicReads))] []) ].
+
+(* TLA+-only temporaries projected away (none in this spec) *)
+Definition dqueue_scratch : list string := [].
